@@ -76,6 +76,14 @@ def check(tier, seed):
             cases.append(Case('ubx-schedule', G.ubx_cmd(filt, ops), impl, desc,
                               nontrivial=any(o[0] in ('F', 'FS', 'K') for o in ops),
                               kind='ops:' + ''.join(sorted(set(o[0] for o in ops)))))
+        # the caller's filter list must not be modified by the parser: set_filters(L); set_filter(x); set_filters(L)
+        for _ in range(20 if tier == 'quick' else 500):
+            L = [rng.choice(G.CIDS), rng.choice(G.CIDS)]
+            x = rng.choice(G.CIDS)
+            fr = [G.frame(c, i, bytes([k])) for k, (c, i) in enumerate(L + [x] + L)]
+            ops = [('FS', L), ('P', fr[0]), ('F', x), ('P', fr[2]), ('FS', L), ('P', fr[1] + fr[2] + fr[3])] + [('K',)] * 6
+            impl = G.impl_ubx(None, ops)
+            cases.append(Case('ubx-filter-list-reuse', G.ubx_cmd(None, ops), impl, {'L': L, 'x': x}, kind='filter-list-reuse'))
         # long backlogs: many matching frames queued before anything is fetched (first in, first out, nothing lost)
         for _ in range(12 if tier == 'quick' else 300):
             n = rng.choice([31, 32, 33, 34, 40, 64, 65, 100, 130])
